@@ -215,3 +215,119 @@ def identity_case(algo_name: str, N: int, T: int, masked: bool, stateful: bool, 
         atoms["TrainingReportsThatPolicyTerm"] = _close(log["policy_loss"], -(stored_lp * adv).mean())
     return dict(ev="identity", kind=f"{algo_name}:N{N}:T{T}:{'masked' if masked else 'unmasked'}:{'stateful' if stateful else 'stateless'}",
                 atoms=atoms, approx_kl=float(log.get("approx_kl", 0.0)))
+
+
+# ------------------------------------------------------------------------------------------------ configured learners
+def _same_tree(a, b, grads, tol=1e-5) -> bool:
+    """leaf-wise equality of two parameter trees, on the components whose gradient is not numerically zero (Adam's first step is
+    lr * g / (|g| + eps): where g is rounding noise around 0 the step is decided by that noise and differs between two compilations)"""
+    la, lb = jax.tree.leaves(eqx.filter(a, eqx.is_inexact_array)), jax.tree.leaves(eqx.filter(b, eqx.is_inexact_array))
+    lg = jax.tree.leaves(eqx.filter(grads, eqx.is_inexact_array))
+    if not (len(la) == len(lb) == len(lg)):
+        return False
+    seen = 0
+    for x, y, g in zip(la, lb, lg):
+        x, y, g = np.asarray(x), np.asarray(y), np.asarray(g)
+        if x.shape != y.shape or x.shape != g.shape:
+            return False
+        sel = np.abs(g) > 1e-5
+        seen += int(sel.sum())
+        if not np.allclose(x[sel], y[sel], atol=tol, rtol=1e-5):
+            return False
+    return seen > 0
+
+
+_ROUTED: dict = {}
+
+
+def routing_case(algo_name: str, normalize: bool, clipv: bool, seed: int) -> dict:
+    """The loss a CONFIGURED learner minimises: PPO / A2C / REINFORCE objects constructed with distinct non-default coefficients
+    (clip 0.3, value 0.7, entropy 0.03, max_grad_norm 0.4) run their real `train` on a really collected rollout with a policy that
+    has moved since collection (ratios differ from 1); what they report and the policy they return must be the static loss - whose
+    formula TLC judges case by case - evaluated with exactly these settings, pushed through the learner's own optimiser."""
+    N, T = 2, 8
+    env = MaskedChain(True)
+    k0, k1, k2, k3 = jr.split(jr.key(seed), 4)
+    policy = StatefulMaskedPolicy(env, k0, True)
+    cb = Recorder()
+    collector = _algo("A2C" if algo_name != "PPO" else "PPO", N, T)
+    state = _iteration(collector, _reset(collector, env, policy, k1, cb), k2, cb)
+    buf = state.callback_state.log["buffer"]
+    flat = buf.flatten_axes()
+    moved = eqx.tree_at(lambda p: (p.W, p.V), policy, (policy.W + 0.3 * jr.normal(k3, policy.W.shape), policy.V + 0.2))
+    CLIP, CV, CE, MAXN = 0.3, 0.7, 0.03, 0.4
+    key = (algo_name, normalize, clipv)
+    if key not in _ROUTED:
+        if algo_name == "PPO":
+            _ROUTED[key] = PPO(num_envs=N, num_steps=T, num_epochs=1, num_batches=1, clip_coefficient=CLIP, clip_value_loss=clipv,
+                               normalize_advantages=normalize, value_loss_coefficient=CV, entropy_loss_coefficient=CE, max_grad_norm=MAXN,
+                               learning_rate=1e-2)
+        elif algo_name == "A2C":
+            _ROUTED[key] = A2C(num_envs=N, num_steps=T, normalize_advantages=normalize, value_loss_coefficient=CV,
+                               entropy_loss_coefficient=CE, max_grad_norm=MAXN, learning_rate=1e-2)
+        else:
+            _ROUTED[key] = REINFORCE(num_envs=N, num_steps=T, normalize_advantages=normalize, value_loss_coefficient=CV, max_grad_norm=MAXN,
+                                     learning_rate=1e-2)
+    algo = _ROUTED[key]
+    params = eqx.filter(moved, eqx.is_inexact_array)
+    opt_state = algo.optimizer.init(params)
+    new_policy, _, log = eqx.filter_jit(lambda a, p, o, b, k: a.train(p, o, b, key=k))(algo, moved, opt_state, buf, jr.key(seed + 1))
+    if algo_name == "PPO":
+        (loss, st), grads = PPO.ppo_loss_grad(moved, flat, normalize, CLIP, clipv, CV, CE)
+        names = ("policy_loss", "value_loss", "entropy_loss", "approx_kl")
+    elif algo_name == "A2C":
+        (loss, st), grads = A2C.a2c_loss_grad(moved, flat, normalize, CV, CE)
+        names = ("policy_loss", "value_loss", "entropy_loss")
+    else:
+        (loss, st), grads = REINFORCE.reinforce_loss_grad(moved, flat, normalize, CV)
+        names = ("policy_loss", "value_loss")
+    upd, _ = algo.optimizer.update(grads, opt_state, params)
+    expect = eqx.apply_updates(moved, upd)
+    ratio_spread = float(np.max(np.abs(np.exp(np.asarray(jax.vmap(moved.evaluate_action)(flat.states, flat.observations, flat.actions,
+                                                                                           action_mask=flat.action_masks)[2])
+                                              - np.asarray(flat.log_probs)) - 1.0)))
+    atoms = {"ReportedLossIsTheObjectiveWithTheConfiguredCoefficients": _close(log["loss"], loss, 1e-5),
+             "ReportedTermsAreTheObjectivesTerms": all(_close(log[n], getattr(st, n), 1e-5) for n in names),
+             "ReturnedPolicyIsTheConfiguredOptimisersStepOnThatObjective": _same_tree(new_policy, expect, grads),
+             "PolicyHasMovedSinceCollection": bool(ratio_spread > 0.05)}
+    return dict(ev="identity", kind=f"configured:{algo_name}:{'norm' if normalize else 'raw'}:{'clipv' if clipv else 'noclipv'}", atoms=atoms,
+                approx_kl=float(log.get("approx_kl", 0.0)))
+
+
+def dqn_routing_case(gamma: float, seed: int) -> dict:
+    """A configured DQN (gamma, batch size, learning rate non-default) runs its real dqn_train on a hand-filled replay buffer with a
+    distinct target network; reported loss and returned network = static dqn_loss (TLC-judged formula) on the batch the same key
+    samples, with this gamma, through the learner's own optimiser."""
+    from lerax.algorithm import DQN
+    from lerax.buffer import ReplayBuffer
+    from lerax.policy import MLPQPolicy
+    from .drive_laws import SpaceEnv
+    env = SpaceEnv(Discrete(3))
+    k0, k1, k2, k3 = jr.split(jr.key(seed), 4)
+    online = MLPQPolicy(env=env, width_size=8, depth=1, key=k0)
+    target = MLPQPolicy(env=env, width_size=8, depth=1, key=k1)
+    B = 6
+    buf = ReplayBuffer(B, env.observation_space, env.action_space, None)
+    rng = np.random.default_rng(seed)
+    for i in range(B):
+        o, o2 = rng.uniform(-1, 1, 3).astype(np.float32), rng.uniform(-1, 1, 3).astype(np.float32)
+        done = bool(i % 3 == 0)
+        buf = buf.add(jnp.asarray(o), jnp.asarray(o2), jnp.asarray(int(rng.integers(0, 3))), float(rng.integers(-1, 3)), done,
+                      bool(done and i % 2 == 0), None, None)
+    key = ("DQN", gamma)
+    if key not in _ROUTED:
+        _ROUTED[key] = DQN(buffer_size=B, learning_starts=0, num_envs=1, num_steps=1, batch_size=4, gamma=gamma, learning_rate=1e-2,
+                           target_update_interval=3)
+    algo = _ROUTED[key]
+    params = eqx.filter(online, eqx.is_inexact_array)
+    opt_state = algo.optimizer.init(params)
+    new_policy, _, log = algo.dqn_train(online, opt_state, buf, target, key=k3)
+    batch = buf.sample(4, key=k3)
+    loss, grads = DQN.dqn_loss_grad(online, batch, target, gamma)
+    upd, _ = algo.optimizer.update(grads, opt_state, params)
+    expect = eqx.apply_updates(online, upd)
+    other = DQN.dqn_loss(online, batch, target, 0.99)
+    atoms = {"ReportedLossIsTheObjectiveWithTheConfiguredDiscount": _close(log["loss"], loss, 1e-5),
+             "ReturnedNetworkIsTheConfiguredOptimisersStepOnThatObjective": _same_tree(new_policy, expect, grads),
+             "DiscountMattersOnThisBatch": bool(abs(float(other) - float(loss)) > 1e-3)}
+    return dict(ev="identity", kind=f"configured:DQN:gamma={gamma}", atoms=atoms, approx_kl=0.0)
